@@ -7,6 +7,6 @@ PROP = dict(
          'the Lean model; distinct = by hash of (op, observation); non-trivial = an allocation that returned a frame or a free',
     trusted=['reserveRegionFn/mapFn are scripted (vmm is covered by C04/C07)', 'multiboot block built by the harness (decoder covered by C10)'],
     assumptions=['memory map sorted, non-overlapping, addr+len < 2^64, fewer than 2^32 frames', 'kernel image page-aligned start, inside one available region'],
-    level_text="Lean theorems about the executable pmm model, for every sorted memory map, kernel placement, number of early allocations and history of allocate/free calls: initialisation establishes the invariant with free set = usable frames, AllocFrame/FreeFrame refine remove/add on that set (alloc_refines, free_refines), every frame handed out is wholly inside available RAM, outside the kernel image, not early-allocated and not held (handed_out_only_from_usable, exclusive, conservation). Model tied to the Go code by regenerated constants and a differential run of Init/AllocFrame/FreeFrame on generated maps with the property oracle on the implementation's observations.",
+    level_text="Lean theorems about the executable pmm model, for every sorted memory map, kernel placement, number of early allocations and history of allocate/free calls: initialisation establishes the invariant with free set = usable frames, AllocFrame/FreeFrame refine remove/add on that set (alloc_refines, free_refines), every frame handed out is wholly inside available RAM, outside the kernel image, not early-allocated and not held (handed_out_only_from_usable, exclusive, conservation). any_map_order: the bitmap allocator's invariant only needs pairwise disjoint pool ranges, so the same holds for a memory map listed in any order. Model tied to the Go code by regenerated constants, 20 tie lemmas over expressions regenerated from the source (tools/exprgen; proved through one arithmetic normal form, so equivalent rewrites of the Go expressions keep the tie) and a differential run of Init/AllocFrame/FreeFrame on generated maps with the property oracle on the implementation's observations.",
     level_note='Trusted: Lean kernel (+ propext, Classical.choice, Quot.sound), theorem statements, harness (differential testing, not a proof about Go), addresses/frames as Nat under the domain hypotheses addr+len < 2^64 and < 2^32 frames, caller contract for FreeFrame (callers free frames they hold), vmm seams (reserveRegionFn/mapFn) scripted.',
 )
